@@ -135,7 +135,7 @@ func ParseLikeValidURL(v string) (UrlFact, *url.URL) {
 
 // hostOf: link hardening treats an href as external when net/url finds a host in it, or cannot parse it at all.
 func hostOf(v string) bool {
-	u, err := url.Parse(v)
+	u, err := url.Parse(strings.TrimSpace(v)) // white space around the value is ignored, as a browser does
 	return err != nil || u.Host != ""
 }
 
